@@ -137,10 +137,12 @@ class C17(InterpProp):
         return {'multi': [{'obs': eobs}, iobs]}
 
     def normalize(self, obs):
+        # compared with the model: the structure after rename_state / copy_from_statechart (that is what the
+        # theorems are about).  The behavioural half of the property is a relation between two runs of the
+        # *implementation* (original vs renamed/copied twin), checked by the oracle; how the interpreter
+        # itself behaves is other properties' business.
         o = json.loads(json.dumps(obs))
-        for ob in o['multi'][1].get('obs', []):
-            for s in ob.get('world', {}).get('slots', []):
-                s.pop('unsupported', None)
+        o['multi'][1] = {'n_obs': len(o['multi'][1].get('obs', []))}
         return o
 
     def shrink_candidates(self, case):
